@@ -7,7 +7,8 @@
    [flds], [mths], [prms] are the children of an optional parent; [union eqb ka kb] = ka followed
    by the keys of kb that are not in ka; [row3 a b] = [shared first name; A's name; B's name];
    [first_some a b] = a's comment if it has one, else b's. *)
-From FB Require Import C09.Model C09.Theory C09.Theory2 C09.Theory3 C09.Theory4 C09.Theory5 C09.Theory6 C09.Theory7 C09.Theory8 C09.Theory9.
+From FB Require Import C09.Model C09.Theory C09.Theory2 C09.Theory3 C09.Theory4 C09.Theory5 C09.Theory6 C09.Theory7 C09.Theory8 C09.Theory9 C09.Theory10 C09.Theory11 C09.Theory12.
+From FB Require C08.Model.
 From FB Require C03.Theory6.
 
 (* The key-zipping helper shared by diff and merge is a join: on maps with unique keys the
@@ -141,6 +142,73 @@ Print Assumptions C09_reord_spec.
 Theorem C09_restrict_b_example : restrict_b_example.
 Proof. exact restrict_b_example_holds. Qed.
 Print Assumptions C09_restrict_b_example.
+
+(* 6. Commutation.  merge B A fails exactly when merge A B fails; when they succeed, merge B A is
+      merge A B with the columns a and b exchanged ([swap_ab], coq/C09/Model.v: namespaces
+      (s, b, a) and every names row [s-name; b-name; a-name]) UP TO THE ORDER OF ENTRIES at every
+      level - merge A B lists A's entries first, merge B A lists B's first ([mappings_equiv], the
+      nested-permutation relation of C03; hence equal canonical forms).  So the join does not
+      prefer a side: which input is called A only decides the column order and the iteration order. *)
+Theorem C09_merge_comm : forall A B, wf2 A = true -> wf2 B = true ->
+  (merge A B = Err <-> merge B A = Err)
+  /\ (forall M, merge A B = Ok M ->
+        exists M', merge B A = Ok M' /\ C03.Theory6.mappings_equiv M' (swap_ab M) /\ canon M' = canon (swap_ab M)).
+Proof. exact merge_comm. Qed.
+Print Assumptions C09_merge_comm.
+
+(* 6'. The column exchange [swap_ab] is not a private notion: it is what the model of
+       Mappings::reorder (property C08, coq/C08/Model.v) returns for the order (s, b, a) on a
+       well-formed three-namespace set whose descriptors scan; so merge B A is merge A B reordered
+       to (s, b, a), up to the order of entries. *)
+Theorem C09_swap_ab_is_reorder : forall M,
+  wf M = true -> length (ms_ns M) = 3%nat -> C08.Model.descs_scan M = true ->
+  C08.Model.reorder M [0; 2; 1]%nat = Ok (swap_ab M).
+Proof. exact swap_ab_is_reorder. Qed.
+Print Assumptions C09_swap_ab_is_reorder.
+
+Theorem C09_merge_comm_via_reorder : forall A B M,
+  wf2 A = true -> wf2 B = true -> merge A B = Ok M -> C08.Model.descs_scan M = true ->
+  exists M' R, merge B A = Ok M' /\ C08.Model.reorder M [0; 2; 1]%nat = Ok R /\ C03.Theory6.mappings_equiv M' R.
+Proof. exact merge_comm_via_reorder. Qed.
+Print Assumptions C09_merge_comm_via_reorder.
+
+(* non-vacuity of 6, and "up to order" cannot be dropped there: on the example pair merge B A is
+   the column-exchanged merge A B in a different order; a conflicting pair fails both ways *)
+Theorem C09_merge_comm_example : comm_example.
+Proof. exact comm_example_holds. Qed.
+Print Assumptions C09_merge_comm_example.
+
+(* 7. Outside the hypotheses (no wf2 at all: rows of any length, empty names put in through
+      Names::change_name, empty namespace names through rename_namespaces, duplicate keys): a merge that
+      succeeds has rebuilt the header and every row through the checking constructors - three non-empty
+      namespaces, three cells per row, no empty name anywhere ([rows_ok], coq/C09/Model.v); an empty
+      namespace name on either side is always refused. *)
+Theorem C09_merge_rows_ok : forall A B M, merge A B = Ok M -> rows_ok M = true.
+Proof. exact merge_rows_ok. Qed.
+Print Assumptions C09_merge_rows_ok.
+
+Theorem C09_merge_rejects_empty_namespace : forall A B, In [] (ms_ns A) \/ In [] (ms_ns B) -> merge A B = Err.
+Proof. exact merge_rejects_empty_namespace. Qed.
+Print Assumptions C09_merge_rejects_empty_namespace.
+
+(* An empty name Some [] in the second column of any class / field / method / parameter row of
+   either input makes merge fail, provided only that the keys of every map are pairwise distinct
+   ([keys_unique], the part of wf that does not speak about names - C09_wf_keys_unique): the merged
+   rows are rebuilt through Names::try_from, which rejects it.  (Replayed on the implementation in the
+   `empty-name` correspondence stream.) *)
+Theorem C09_merge_rejects_empty_name : forall A B,
+  keys_unique A = true -> keys_unique B = true ->
+  has_empty_name A || has_empty_name B = true -> merge A B = Err.
+Proof. exact merge_rejects_empty_name. Qed.
+Print Assumptions C09_merge_rejects_empty_name.
+
+Theorem C09_wf_keys_unique : forall M, wf M = true -> keys_unique M = true.
+Proof. exact wf_keys_unique. Qed.
+Print Assumptions C09_wf_keys_unique.
+
+Theorem C09_empty_name_example : empty_name_example.
+Proof. exact empty_name_example_holds. Qed.
+Print Assumptions C09_empty_name_example.
 
 (* 5. The checks of merge.rs on descriptors, parameter indices (merge_equal) and on the first
       names of classes, fields and methods (merge_names) can never fail: what they compare is
